@@ -266,6 +266,64 @@ Fixpoint proto_ok_f (f:field) : bool :=
   | _ => true end.
 Definition proto_ok (fs:list field) : bool := forallb proto_ok_f fs.
 
+(* ---------------------------------------------------------------- well-formed definitions (static, executable)
+   names of one envelope level are distinct (bit-field names included); integers have a fixed width >= 1 and a
+   non-zero multiplier; a spare has a length that does not depend on the buffer (fixed or table); a bit-field set
+   fits its length and fixed values fit their width; a nested envelope checks its length. *)
+Definition bf_names (bfs:list bitf) : list nat :=
+  flat_map (fun f => match f with BitF (Some k) _ _ => [k] | _ => [] end) bfs.
+Definition fnames (f:field) : list nat :=
+  match f with
+  | FUint nm _ _ _ _ _ _ | FBuf nm _ _ | FEnv nm _ _ _ _ | FSeq nm _ _ _ => [nm]
+  | FSpare _ _ _ => []
+  | FBits _ _ _ bfs => bf_names bfs
+  end.
+Definition lnames (fs:list field) : list nat := flat_map fnames fs.
+Fixpoint nodupb (l:list nat) : bool :=
+  match l with [] => true | x :: r => negb (existsb (Nat.eqb x) r) && nodupb r end.
+Definition spare_len_ok (l:lensrc) : bool := match l with LFix (S _) => true | LTab _ _ => true | _ => false end.
+Definition fixed_ok (f:bitf) : bool :=
+  match f with BitF (Some _) bl (Some c) => (0 <=? c) && (c <? 2 ^ Z.of_nat bl) | _ => true end.
+Fixpoint wfb_f (f:field) : bool :=
+  match f with
+  | FUint _ l _ _ _ _ mult => (match l with LFix (S _) => true | _ => false end) && negb (mult =? 0)
+  | FBuf _ _ _ => true
+  | FSpare l _ filler => spare_len_ok l && (0 <=? filler) && (filler <? 256)
+  | FBits l _ _ bfs => Nat.leb 1 (bits_len l bfs) && Nat.leb (bits_total bfs) (8 * bits_len l bfs) && forallb fixed_ok bfs
+  | FEnv _ _ _ chk body => chk && nodupb (flat_map fnames body) && forallb wfb_f body
+  | FSeq _ _ _ item => nodupb (flat_map fnames item) && forallb wfb_f item
+  end.
+Definition wfb (fs:list field) : bool := nodupb (lnames fs) && forallb wfb_f fs.
+
+(* a field that is always present and has a fixed length >= 1: decoding it consumes at least one octet *)
+Definition cons_f (f:field) : bool :=
+  match f with
+  | FBits l PAlways _ bfs => Nat.leb 1 (bits_len l bfs)
+  | FUint _ (LFix (S _)) PAlways _ _ _ _ | FBuf _ (LFix (S _)) PAlways | FSpare (LFix (S _)) PAlways _
+  | FEnv _ (LFix (S _)) PAlways _ _ | FSeq _ (LFix (S _)) PAlways _ => true
+  | _ => false
+  end.
+Definition consumes (fs:list field) : bool := existsb cons_f fs.
+(* every sequence item (at any depth) consumes at least one octet: the condition under which Sequence.from_bytes terminates *)
+Fixpoint seq_ok_f (f:field) : bool :=
+  match f with
+  | FEnv _ _ _ _ body => forallb seq_ok_f body
+  | FSeq _ _ _ item => consumes item && forallb seq_ok_f item
+  | _ => true
+  end.
+Definition seq_ok (fs:list field) : bool := forallb seq_ok_f fs.
+(* the number of octets of a definition without optional / variable-length fields at its top level *)
+Definition static_len_f (f:field) : option nat :=
+  match f with
+  | FBits l PAlways _ bfs => Some (bits_len l bfs)
+  | FUint _ (LFix (S n)) PAlways _ _ _ _ | FBuf _ (LFix (S n)) PAlways | FSpare (LFix (S n)) PAlways _
+  | FEnv _ (LFix (S n)) PAlways _ _ | FSeq _ (LFix (S n)) PAlways _ => Some (S n)
+  | _ => None
+  end.
+Fixpoint static_len (fs:list field) : option nat :=
+  match fs with [] => Some O
+  | f :: r => match static_len_f f, static_len r with Some a, Some b => Some (a + b)%nat | _, _ => None end end.
+
 Definition dec_fuel (fs:list field) (data:list Z) : nat := S (lsize fs + length data).
 Definition enc_fuel (fs:list field) : nat := S (lsize fs).
 
@@ -290,6 +348,7 @@ Definition encode (fs:list field) (e:env) : res (list Z) :=
    val    := 0 BIG | 1 cnt octet... | 2 cnt {name val}... | 3 cnt val...
    w_c16_enc : fields, cnt {name val}...   gives   0 0 len octet...             or   status cause
    w_c16_dec : chk, fields, cnt octet...   gives   0 0 used val-of-the-dict     or   status cause
+   w_c16_wf  : fields                      gives   [1] if the definition is well-formed (wfb), [0] otherwise
    status: 0 Ok, 1 DecodeErr, 2 EncodeErr, 3 OutOfFuel, 4 Crash ; malformed arguments give [-999] *)
 Definition P (A:Type) := list Z -> option (A * list Z).
 Definition pret {A} (a:A) : P A := fun s => Some (a, s).
@@ -372,4 +431,8 @@ Definition w_c16_dec (a:list Z) : list Z :=
   let fuel := S (length a) in
   match (chk <~ p_bool ;;; fs <~ p_list (p_field fuel) ;;; d <~ p_list p_octet ;;; pret (chk, fs, d)) a with
   | Some ((chk, fs, d), []) => ser_res (decode chk fs d) (fun r => Z.of_nat (snd r) :: ser_val (VDict (fst r)))
+  | _ => [-999] end.
+Definition w_c16_wf (a:list Z) : list Z :=
+  match p_list (p_field (S (length a))) a with
+  | Some (fs, []) => [if wfb fs then 1 else 0]
   | _ => [-999] end.
